@@ -1121,6 +1121,16 @@ class SymEx:
             if rs is None or len(rs) != 1:
                 return None
             return [(rs[0][0], ('sseq', base, self.deep(rs[0][0], rs[0][1]), start))]
+        if last == 'flat_map' and len(args) == 2 and start == NUM(0):
+            # { y | x in base, y in g(elem(x)) }: the inner sequence's own element variable stays `$x`, the outer item becomes `$o`
+            outer_elem = subst_value(elem, {'$x': SYM('$o'), '$i': SYM('$oi')})
+            rs = self.call_closure(st, args[1], [outer_elem], depth)
+            if rs is None or len(rs) != 1:
+                return None
+            inner = self.deep(rs[0][0], rs[0][1])
+            if isinstance(inner, tuple) and inner[0] == 'sseq' and inner[3] == NUM(0):
+                return [(rs[0][0], ('sseq', APP('flat', base, inner[1]), inner[2], NUM(0)))]
+            return None
         if last == 'enumerate' and len(args) == 1:
             idx = self.binop('Sub', SYM('$i'), start) if start != NUM(0) else SYM('$i')
             return [(st, ('sseq', base, STRUCT('(tuple)', None, [('0', idx), ('1', elem)]), start))]
